@@ -342,6 +342,11 @@ class Emitter:
         for ns in ('ccl::', 'ccl::object::', 'ccl::rslang::', 'ccl::semantic::', 'ccl::graph::', 'ccl::lang::', 'ccl::ops::', 'ccl::src::', 'ccl::change::'):
             if ns + q in self.typedefs:
                 t = self.ty(self.typedefs[ns + q]); t.ref = ref or t.ref; t.const = const or t.const; return t
+        if re.fullmatch(r'[A-Za-z_]\w*', q):
+            # unqualified alias declared in some namespace of the repository: unique suffix match
+            tg = {v for k, v in self.typedefs.items() if k.endswith('::' + q)}
+            if len(tg) == 1:
+                t = self.ty(tg.pop()); t.ref = ref or t.ref; t.const = const or t.const; return t
         m = re.fullmatch(r'(?:std::)?(?:basic_string_view<char(?:, std::char_traits<char>)?>|string_view)', q)
         if m: return Ty('sv', 'sv_t', ref=ref, const=const)
         m = re.fullmatch(r'std::optional<(.*)>', q)
